@@ -59,6 +59,12 @@ pub struct Fake {
   sock: UdpSocket,
   pub lease: Option<f64>,
   sn_spdp: i64,
+  /// SPDP DATA addressed to ENTITYID_UNKNOWN (as RustDDS and most implementations send it) instead of to the SPDP reader
+  pub spdp_to_unknown: bool,
+  /// the periodic re-announcement repeats the same DATA with the same sequence number (as a stateless
+  /// best-effort SPDP writer resending its one change does, e.g. eProsima) instead of a new number every time
+  pub spdp_same_sn: bool,
+  spdp_fresh: bool,
   sn_pub: i64,
   sn_sub: i64,
   hb: i32,
@@ -96,7 +102,9 @@ impl Fake {
     }
     let sock = UdpSocket::bind("127.0.0.1:0").expect("bind fake socket");
     sock.set_nonblocking(true).expect("nonblocking");
-    Fake { idx, prefix, sock, lease, sn_spdp: 0, sn_pub: 0, sn_sub: 0, hb: 0, alive: false, last_spdp_send: None, max_keepalive_gap: 0.0, marker_ctr: 0, first_pub: 1, first_sub: 1, sent_pub: BTreeMap::new(), sent_sub: BTreeMap::new(), retransmissions: 0, received: 0, acknacks: vec![], last_hb: None }
+    let spdp_to_unknown = rng.chance(1, 2);
+    let spdp_same_sn = rng.chance(1, 2);
+    Fake { idx, prefix, sock, lease, sn_spdp: 0, spdp_to_unknown, spdp_same_sn, spdp_fresh: true, sn_pub: 0, sn_sub: 0, hb: 0, alive: false, last_spdp_send: None, max_keepalive_gap: 0.0, marker_ctr: 0, first_pub: 1, first_sub: 1, sent_pub: BTreeMap::new(), sent_sub: BTreeMap::new(), retransmissions: 0, received: 0, acknacks: vec![], last_hb: None }
   }
   fn addr(&self) -> SocketAddr {
     self.sock.local_addr().unwrap()
@@ -105,11 +113,15 @@ impl Fake {
     let _ = self.sock.send_to(dg, SocketAddr::from(([127, 0, 0, 1], port)));
   }
   pub fn send_spdp(&mut self, meta_port: u16) {
-    self.sn_spdp += 1;
+    // a new sequence number for the first announcement of an appearance; keep-alives repeat it if the fake is of that kind
+    if self.spdp_fresh || !self.spdp_same_sn || self.sn_spdp == 0 {
+      self.sn_spdp += 1;
+    }
+    self.spdp_fresh = false;
     let payload = disc::spdp_payload(self.prefix, self.lease, self.addr(), self.addr(), true);
     let mut dg = wire::header(&self.prefix);
     wire::info_ts(&mut dg, true, ts_now());
-    wire::data(&mut dg, true, &DataMsg { reader_id: EID_SPDP_R, writer_id: EID_SPDP_W, sn: self.sn_spdp, inline_qos: None, payload: Some(payload), key_flag: false });
+    wire::data(&mut dg, true, &DataMsg { reader_id: if self.spdp_to_unknown { [0, 0, 0, 0] } else { EID_SPDP_R }, writer_id: EID_SPDP_W, sn: self.sn_spdp, inline_qos: None, payload: Some(payload), key_flag: false });
     let t0 = Instant::now();
     self.send(&dg, meta_port);
     let t1 = Instant::now();
@@ -192,6 +204,7 @@ impl Fake {
     }
   }
   pub fn restart_streams(&mut self) {
+    self.spdp_fresh = true;
     self.first_pub = self.sn_pub + 1;
     self.first_sub = self.sn_sub + 1;
   }
@@ -238,6 +251,9 @@ pub struct Local {
   pub writer_q: Vec<Q>,
   mk_reader: rustdds::with_key::DataReader<KMsg>,
   mk_writer: rustdds::with_key::DataWriter<KMsg>,
+  topics: Vec<rustdds::Topic>,
+  sub: rustdds::Subscriber,
+  publ: rustdds::Publisher,
 }
 
 #[derive(Clone, Debug)]
@@ -271,7 +287,23 @@ impl Local {
     let mk_writer = publ.create_datawriter_cdr::<KMsg>(&tr, None).map_err(|e| format!("{e:?}"))?;
     let ports = disc::local_ports(&dp);
     let prefix = disc::participant_prefix(&dp);
-    Ok(Local { dp, prefix, meta_port: ports.meta_unicast, readers, writers, reader_q, writer_q, mk_reader, mk_writer })
+    Ok(Local { dp, prefix, meta_port: ports.meta_unicast, readers, writers, reader_q, writer_q, mk_reader, mk_writer, topics, sub, publ })
+  }
+
+  /// A further local endpoint, created while the scenario runs. Like the initial ones it sits on topic
+  /// (its index % 2). Returns its index among the local readers / writers.
+  pub fn add_late(&mut self, is_writer: bool, q: &Q) -> Result<usize, String> {
+    if is_writer {
+      let i = self.writers.len();
+      self.writers.push(self.publ.create_datawriter_cdr::<KMsg>(&self.topics[i % 2], Some(q.build())).map_err(|e| format!("{e:?}"))?);
+      self.writer_q.push(q.clone());
+      Ok(i)
+    } else {
+      let i = self.readers.len();
+      self.readers.push(self.sub.create_datareader_cdr::<KMsg>(&self.topics[i % 2], Some(q.build())).map_err(|e| format!("{e:?}"))?);
+      self.reader_q.push(q.clone());
+      Ok(i)
+    }
   }
 
   pub fn drain_endpoint_events(&mut self) -> Vec<LEvt> {
@@ -365,11 +397,16 @@ pub enum SEv {
   Reappear { f: usize },
   /// let time pass while keep-alives continue (nothing may be lost)
   Idle { ms: u64 },
+  /// the application creates one more local reader / writer now (entry k of `late`)
+  CreateLocal { k: usize },
 }
 
+#[derive(Clone)]
 pub struct Scenario {
   pub reader_q: Vec<Q>,
   pub writer_q: Vec<Q>,
+  /// local endpoints created while the scenario runs: (is_writer, qos); topic = index among its kind % 2
+  pub late: Vec<(bool, Q)>,
   pub leases: Vec<Option<f64>>,
   pub eps: Vec<Vec<EpDef>>, // per fake
   pub evs: Vec<SEv>,
@@ -379,6 +416,7 @@ pub fn scenario_json(s: &Scenario) -> Value {
   json!({
     "local_reader_qos": s.reader_q.iter().map(|q| format!("{q:?}")).collect::<Vec<_>>(),
     "local_writer_qos": s.writer_q.iter().map(|q| format!("{q:?}")).collect::<Vec<_>>(),
+    "local_endpoints_created_later": s.late.iter().map(|(w, q)| format!("{} {q:?}", if *w { "writer" } else { "reader" })).collect::<Vec<_>>(),
     "leases": s.leases,
     "remote_endpoints": s.eps.iter().map(|v| v.iter().map(|e| json!({"guid": crate::ctx::hex(&e.guid), "writer": e.is_writer, "topic": e.topic, "qos": format!("{:?}", e.q)})).collect::<Vec<_>>()).collect::<Vec<_>>(),
     "events": s.evs.iter().map(|e| format!("{e:?}")).collect::<Vec<_>>(),
@@ -434,11 +472,31 @@ pub fn gen_scenario(rng: &mut Rng, max_events: u64, with_timeouts: bool) -> Scen
     }
     eps.push(v);
   }
+  // up to two local endpoints are created while the scenario runs
+  let mut late: Vec<(bool, Q)> = vec![];
+  let nlate = rng.below(3) as usize;
+  for _ in 0..nlate {
+    let is_writer = rng.chance(1, 2);
+    // mostly the QoS of a remote counterpart (surely compatible with it), else random
+    let q = if rng.chance(2, 3) {
+      let cands: Vec<&EpDef> = eps.iter().flatten().filter(|e: &&EpDef| e.is_writer != is_writer).collect();
+      if cands.is_empty() { palette(rng) } else { rng.pick(&cands).q.clone() }
+    } else {
+      palette(rng)
+    };
+    late.push((is_writer, q));
+  }
+  let mut late_done = 0usize;
   let mut evs = vec![];
   let mut appeared = vec![false; nf];
   let mut alive = vec![false; nf];
   let n = 4 + rng.below(max_events);
-  for _ in 0..n {
+  for k in 0..n {
+    if late_done < late.len() && k >= 2 && rng.chance(1, 5) {
+      evs.push(SEv::CreateLocal { k: late_done });
+      late_done += 1;
+      continue;
+    }
     let f = rng.below(nf as u64) as usize;
     if !appeared[f] {
       evs.push(SEv::Appear { f });
@@ -478,7 +536,8 @@ pub fn gen_scenario(rng: &mut Rng, max_events: u64, with_timeouts: bool) -> Scen
       }
     }
   }
-  Scenario { reader_q, writer_q, leases, eps, evs }
+  late.truncate(late_done);
+  Scenario { reader_q, writer_q, late, leases, eps, evs }
 }
 
 pub struct SOutcome {
@@ -489,6 +548,7 @@ pub struct SOutcome {
   pub losses_by_timeout: u64,
   pub losses_by_dispose: u64,
   pub barrier_timeouts: u64,
+  pub late_locals: u64,
   pub aborted: bool,
   pub sig: u64,
 }
@@ -500,7 +560,7 @@ pub enum SProp {
 }
 
 pub fn run_scenario(sc: &Scenario, domain: u16, prop: SProp, acc: &mut Acc, tag: &Value) -> SOutcome {
-  let mut out = SOutcome { events_applied: 0, matched_events: 0, incompatible_events: 0, set_changes: 0, losses_by_timeout: 0, losses_by_dispose: 0, barrier_timeouts: 0, aborted: false, sig: 0 };
+  let mut out = SOutcome { events_applied: 0, matched_events: 0, incompatible_events: 0, set_changes: 0, losses_by_timeout: 0, losses_by_dispose: 0, barrier_timeouts: 0, late_locals: 0, aborted: false, sig: 0 };
   let mut local = match Local::new(domain, sc.reader_q.clone(), sc.writer_q.clone()) {
     Ok(l) => l,
     Err(e) => {
@@ -509,6 +569,8 @@ pub fn run_scenario(sc: &Scenario, domain: u16, prop: SProp, acc: &mut Acc, tag:
       return out;
     }
   };
+  // the local QoS lists grow when the scenario creates further local endpoints
+  let mut scx: Scenario = sc.clone();
   let mut frng = Rng::new(fnv64(tag.to_string().as_bytes()));
   let mut fakes: Vec<Fake> = sc.leases.iter().enumerate().map(|(i, l)| Fake::new(i, &mut frng, *l)).collect();
   let replay = || json!({"case": tag, "scenario": scenario_json(sc)});
@@ -538,6 +600,8 @@ pub fn run_scenario(sc: &Scenario, domain: u16, prop: SProp, acc: &mut Acc, tag:
   #[derive(Default, Clone)]
   struct LState {
     set: BTreeSet<[u8; 16]>,
+    /// matches with endpoints of the local participant itself (not part of the remote model): taken from the events
+    base: BTreeSet<[u8; 16]>,
     last_total: i32,
     last_current: i32,
   }
@@ -570,8 +634,9 @@ pub fn run_scenario(sc: &Scenario, domain: u16, prop: SProp, acc: &mut Acc, tag:
       std::thread::sleep(StdDuration::from_millis(10));
     }
   }
-  let baseline_r: Vec<BTreeSet<[u8; 16]>> = lr.iter().map(|s| s.set.clone()).collect();
-  let baseline_w: Vec<BTreeSet<[u8; 16]>> = lw.iter().map(|s| s.set.clone()).collect();
+  for st in lr.iter_mut().chain(lw.iter_mut()) {
+    st.base = st.set.clone();
+  }
   let local_prefix_for_filter = lp;
 
   // remote endpoint vs local endpoint `li` (a reader if the remote is a writer, else a writer)
@@ -630,11 +695,25 @@ pub fn run_scenario(sc: &Scenario, domain: u16, prop: SProp, acc: &mut Acc, tag:
   }
 
   // checkpoint: compare endpoint events since the last checkpoint with the model
-  let mut checkpoint = |local: &mut Local, acc: &mut Acc, out: &mut SOutcome, lr: &mut Vec<LState>, lw: &mut Vec<LState>, announced: &BTreeSet<[u8; 16]>, alive: &Vec<bool>, fakes: &Vec<Fake>, step: usize, ev: &SEv, expect_incompatible: &Vec<[u8; 16]>| {
-    let evts = local.drain_endpoint_events();
+  let mut checkpoint = |sc: &Scenario, extra: Vec<LEvt>, local: &mut Local, acc: &mut Acc, out: &mut SOutcome, lr: &mut Vec<LState>, lw: &mut Vec<LState>, announced: &BTreeSet<[u8; 16]>, alive: &Vec<bool>, fakes: &Vec<Fake>, step: usize, ev: &SEv, expect_incompatible: &Vec<[u8; 16]>| {
+    let mut evts = extra;
+    evts.extend(local.drain_endpoint_events());
+    // matches among the local participant's own endpoints are not modelled: they are taken from the events
+    for e in &evts {
+      if let LEvt::Matched { local: li, is_local_reader, remote, current_change, .. } = e {
+        if remote[0..12] == local_prefix_for_filter {
+          let st = if *is_local_reader { &mut lr[*li] } else { &mut lw[*li] };
+          if *current_change > 0 {
+            st.base.insert(*remote);
+          } else {
+            st.base.remove(remote);
+          }
+        }
+      }
+    }
     // model sets now
-    let mut want_r = baseline_r.clone();
-    let mut want_w = baseline_w.clone();
+    let mut want_r: Vec<BTreeSet<[u8; 16]>> = lr.iter().map(|s| s.base.clone()).collect();
+    let mut want_w: Vec<BTreeSet<[u8; 16]>> = lw.iter().map(|s| s.base.clone()).collect();
     for (f, v) in sc.eps.iter().enumerate() {
       for e in v {
         let mut g = e.guid;
@@ -739,6 +818,7 @@ pub fn run_scenario(sc: &Scenario, domain: u16, prop: SProp, acc: &mut Acc, tag:
 
   let v0 = acc.violations.len();
   let mut sigbuf: Vec<u8> = vec![];
+  let mut extra_evts: Vec<LEvt> = vec![];
   for (step, ev) in sc.evs.iter().enumerate() {
     if acc.violations.len() > v0 || out.aborted {
       break;
@@ -777,7 +857,7 @@ pub fn run_scenario(sc: &Scenario, domain: u16, prop: SProp, acc: &mut Acc, tag:
               let mut ep = sc.eps[*f][e].clone();
               ep.guid = g;
               fakes[*f].announce(&ep, &lp, meta);
-              if incompatible_somewhere(&sc.eps[*f][e], sc) {
+              if incompatible_somewhere(&sc.eps[*f][e], &scx) {
                 expect_incompatible.push(g);
               }
             }
@@ -796,7 +876,7 @@ pub fn run_scenario(sc: &Scenario, domain: u16, prop: SProp, acc: &mut Acc, tag:
         ep.guid = g;
         fakes[*f].announce(&ep, &lp, meta);
         let first = announced.insert(g);
-        if incompatible_somewhere(&sc.eps[*f][*e], sc) && first {
+        if incompatible_somewhere(&sc.eps[*f][*e], &scx) && first {
           expect_incompatible.push(g);
         }
         barrier = Some((*f, ep.is_writer));
@@ -875,6 +955,40 @@ pub fn run_scenario(sc: &Scenario, domain: u16, prop: SProp, acc: &mut Acc, tag:
       SEv::Idle { ms } => {
         sigbuf.push(7);
         let _ = wait_until!(*ms as f64 / 1000.0, false);
+      }
+      SEv::CreateLocal { k } => {
+        sigbuf.push(8);
+        let (is_writer, q) = sc.late[*k].clone();
+        match local.add_late(is_writer, &q) {
+          Ok(_) => {
+            if is_writer {
+              scx.writer_q.push(q);
+              lw.push(LState::default());
+            } else {
+              scx.reader_q.push(q);
+              lr.push(LState::default());
+            }
+            out.late_locals += 1;
+          }
+          Err(e) => {
+            acc.inconclusive.push(format!("cannot create a further local endpoint: {e}"));
+            out.aborted = true;
+            continue;
+          }
+        }
+        // no remote event to wait for: the status channels (4 slots each) are emptied all the time until nothing
+        // has arrived for 0.6 s
+        let t0 = Instant::now();
+        let mut quiet = Instant::now();
+        while t0.elapsed().as_secs_f64() < 5.0 && quiet.elapsed().as_secs_f64() < 0.6 {
+          keepalive(&mut fakes, &alive);
+          let v = local.drain_endpoint_events();
+          if !v.is_empty() {
+            quiet = Instant::now();
+            extra_evts.extend(v);
+          }
+          std::thread::sleep(StdDuration::from_millis(5));
+        }
       }
     }
     // The marker endpoints' status channels hold only 4 events and drop the rest: empty them
@@ -958,7 +1072,7 @@ pub fn run_scenario(sc: &Scenario, domain: u16, prop: SProp, acc: &mut Acc, tag:
     if out.aborted {
       continue;
     }
-    checkpoint(&mut local, acc, &mut out, &mut lr, &mut lw, &announced, &alive, &fakes, step, ev, &expect_incompatible);
+    checkpoint(&scx, std::mem::take(&mut extra_evts), &mut local, acc, &mut out, &mut lr, &mut lw, &announced, &alive, &fakes, step, ev, &expect_incompatible);
   }
   out.sig = fnv64(&sigbuf) ^ fnv64(scenario_json(sc).to_string().as_bytes());
   drop(local);
